@@ -223,3 +223,58 @@ theorem var_roundtrip {fs : Facts} {vd : VarDef} (h : VarWF fs vd) :
   simp [viewOf, clientVarOf, tv_roundtrip h.min_ok, tv_roundtrip h.max_ok, tv_roundtrip h.default_ok]
 
 end Upnp.C14
+
+namespace Upnp.C14
+open Upnp
+
+theorem bound_builds {fs : Facts} {dt : Str} {o : Option Str} (h : OptWF fs dt o) :
+    (match (typed fs dt o).map pyStr with
+     | some s => s.isEmpty || (inp fs dt s).isSome
+     | none => true) = true := by
+  cases o with
+  | none => rfl
+  | some s =>
+    obtain ⟨v, hv, v', hv', _⟩ := h s rfl
+    simp [typed, hv, hv']
+
+theorem clientVar_allowed_builds {fs : Facts} {vd : VarDef} (h : VarWF fs vd) :
+    ((clientVarOf fs vd).allowed.getD []).all (fun a => (inp fs vd.dtype a).isSome) = true := by
+  simp only [List.all_eq_true]
+  intro a ha
+  by_cases he : (dedupPy (allowedVals fs vd)).isEmpty = true
+  · simp [clientVarOf, he] at ha
+  · simp only [clientVarOf, he, Bool.false_eq_true, ↓reduceIte, Option.getD_some, List.mem_filterMap,
+      List.mem_map] at ha
+    obtain ⟨s, ⟨v, hv, rfl⟩, hs⟩ := ha
+    obtain ⟨a0, ha0, hav⟩ := mem_allowedVals (mem_dedupPy hv)
+    obtain ⟨v0, hv0, ⟨v', hv', _⟩, _⟩ := h.allowed_ok a0 ha0
+    rw [hav] at hv0; cases hv0
+    have : a = pyStr v := by
+      unfold textOf at hs
+      split at hs
+      · cases hs
+      · cases hs; rfl
+    rw [this, hv']; rfl
+
+/-- the client's eager schema construction succeeds on what it parsed -/
+theorem schemaBuilds_clientVarOf {fs : Facts} {vd : VarDef} (h : VarWF fs vd) :
+    schemaBuilds fs (clientVarOf fs vd) = true := by
+  unfold schemaBuilds
+  have h1 := clientVar_allowed_builds h
+  have h2 := bound_builds h.min_ok
+  have h3 := bound_builds h.max_ok
+  simp only [Bool.and_eq_true]
+  exact ⟨⟨h1, h2⟩, h3⟩
+
+/-- the whole state table: every served variable is read back, in order -/
+theorem parseVars_serialize {fs : Facts} {vars : List VarDef} (hw : ∀ vd ∈ vars, VarWF fs vd) :
+    parseVars fs (vars.map (serializeVar fs)) = some (vars.map (clientVarOf fs)) := by
+  induction vars with
+  | nil => rfl
+  | cons vd r ih =>
+    have hv := hw vd List.mem_cons_self
+    have := ih (fun x hx => hw x (List.mem_cons_of_mem _ hx))
+    simp only [List.map_cons, parseVars, parseVar_serializeVar fs vd hv.name_ok hv.fam_ok, this,
+      schemaBuilds_clientVarOf hv, ↓reduceIte]
+
+end Upnp.C14
